@@ -37,6 +37,7 @@ type PathResult struct {
 	Notes        []string
 	Truncated    bool
 	GlobalWrites []string
+	MonitorHits  []string
 	excuses      []Excuse
 	budgetViol   bool
 }
@@ -864,6 +865,11 @@ func (it *Interp) RunJob(name string, fn *ssa.Function, params map[string]int, o
 	for k, v := range params {
 		it.Params[k] = v
 	}
+	it.Monitor = params["c13"] == 1
+	if it.Monitor {
+		it.PoolStale = 8
+		it.GoOrderAll = true
+	}
 	if opts.MaxPaths == 0 {
 		opts.MaxPaths = 20000
 	}
@@ -891,6 +897,13 @@ func (it *Interp) RunJob(name string, fn *ssa.Function, params map[string]int, o
 		}
 		if p.Truncated {
 			j.note("truncated-allocation")
+		}
+		for _, h := range p.MonitorHits {
+			lab := h
+			if i := strings.Index(h, ":"); i > 0 {
+				lab = h[:i]
+			}
+			it.violation(lab, h, nil)
 		}
 		switch p.Outcome {
 		case "assertfail":
